@@ -237,6 +237,11 @@ class _StepGraph:
             ValueError: If the graph produced by adding the step is not
                 a DAG.
         """
+        if path in self._graph:
+            # a step that is replaced in place: the dependencies given
+            # now replace the ones it had
+            self._graph.remove_edges_from(
+                list(self._graph.in_edges(path)))
         self._graph.add_node(path)
         for dependency in dependencies:
             self._graph.add_edge(dependency, path)
@@ -256,7 +261,9 @@ class _StepGraph:
         Args:
             path: The path to the step in the hierarchy.
         """
-        self._sequential_steps.append(path)
+        if path not in self._sequential_steps:
+            # (a step that is replaced in place keeps its position)
+            self._sequential_steps.append(path)
         self._validate()
 
     def get_execution_layers(self) -> List[List[HierarchyPath]]:
@@ -817,6 +824,17 @@ class Engine:
 
         if process_updates:
             for path, process in process_updates:
+                replaced = self.process_paths.get(path)
+                if replaced is not None and replaced is not process:
+                    # a process generated in the place of another one
+                    # starts afresh: it does not inherit the interval
+                    # and the pending update of the one it replaces
+                    del self.process_paths[path]
+                    self._remove_deleted_processes()
+                # (published in one place: a step that was reported
+                # among the steps before may be replaced by one that is
+                # listed among the processes, and vice versa)
+                delete_in(self.steps, path)
                 assoc_path(self.processes, path, process)
                 # (a step listed under the processes finds its flow
                 # entry, as it does at construction)
@@ -825,6 +843,7 @@ class Engine:
         if step_updates:
             for path, step in step_updates:
                 dependencies = flow_update_dict.get(path)
+                delete_in(self.processes, path)
                 assoc_path(self.steps, path, step)
                 self._add_step_path(step, path, dependencies)
 
